@@ -76,6 +76,7 @@ type prop struct {
 	configs func(tier string) []map[string]string // process-level environments (index = cfg)
 	child   childFn
 	shard   int // max cases per child process
+	procs   int // child processes running at once (default 16); timing-sensitive streams use fewer
 	// gen/run style (preferred): a case is its field list; run executes the real code on it.
 	gen   func(r *Rng, i int, cfg int, tier string) []string
 	run   func(fields []string) []string
@@ -273,7 +274,11 @@ func main() {
 	}
 	results := make([][]byte, len(jobs))
 	errs := make([]error, len(jobs))
-	sem := make(chan struct{}, 16)
+	procs := p.procs
+	if procs == 0 {
+		procs = 16
+	}
+	sem := make(chan struct{}, procs)
 	var wg sync.WaitGroup
 	self, _ := os.Executable()
 	for i, j := range jobs {
